@@ -1026,6 +1026,8 @@ class CollapseCollector(WrappingCollector):
 
     def results(self):
         r = self.child.results()
+        # len(results) must go through this collector's count()
+        r.collector = self
         r.collapsed_counts = self.collapsed_counts
         return r
 
